@@ -63,10 +63,14 @@ RELATED = {
 }
 
 
+MUT_DIR = os.environ.get("MUT_DIR", "/tmp/mut")
+LETTERS = os.environ.get("MUT_LETTERS", "ab")
+
+
 def collect():
     items = []
-    for d in sorted(os.listdir("/tmp/mut")):
-        out = os.path.join("/tmp/mut", d, "out")
+    for d in sorted(os.listdir(MUT_DIR)):
+        out = os.path.join(MUT_DIR, d, "out")
         if not os.path.isdir(out):
             continue
         for suffix in ("", "2"):
@@ -74,7 +78,7 @@ def collect():
             dm = os.path.join(out, "demo%s.cpp" % suffix)
             mt = os.path.join(out, "meta%s.txt" % suffix)
             if os.path.exists(p) and os.path.exists(dm) and os.path.getsize(p) > 0:
-                items.append((d + ("b" if suffix else "a"), d, p, dm, mt))
+                items.append((d + (LETTERS[1] if suffix else LETTERS[0]), d, p, dm, mt))
     return items
 
 
@@ -163,7 +167,7 @@ def main():
             dm = os.path.join(out, "demo%s.cpp" % suffix)
             mt = os.path.join(out, "meta%s.txt" % suffix)
             if os.path.exists(p) and os.path.exists(dm) and os.path.getsize(p) > 0:
-                items.append((d + ("b" if suffix else "a"), d, p, dm, mt))
+                items.append((d + (LETTERS[1] if suffix else LETTERS[0]), d, p, dm, mt))
     for name, prop, patch, demo, meta in items:
         if only and name not in only and prop not in only:
             continue
